@@ -156,8 +156,38 @@ def range_write(prog, rep, tag):
         # advance by word.len() == 2
         adv = [a for a in q.field_accesses(b, "EepromRange", "byte_pos") if a[2] == "write"]
         d["advance-after-write"] = len(adv) == 1 and adv[0][0] in b.reachable_strict(ww[0].bb)
+        # the count handed back is what was consumed from the caller's buffer (the padded byte is not part
+        # of it): write_all advances its slice by that count and panics if it exceeds what it passed in
+        oks = q.aggregates(b, "Result", "Ok")
+        wl = None
+        for (bi, si, st) in oks:
+            l = q.local_of(st["rv"]["a"][0])
+            # resolve temporaries back to the named counter
+            for _ in range(4):
+                if l is None or b.local_name(l):
+                    break
+                ds = b.defs().get(l, [])
+                if len(ds) == 1 and ds[0][2] == "assign" and ds[0][3]["rv"]["k"] == "use":
+                    l = q.local_of(ds[0][3]["rv"]["a"][0])
+                else:
+                    break
+            if l is not None and b.local_name(l):
+                wl = l
+        incs = []
+        if wl is not None:
+            # all Add statements whose result flows into the returned local
+            pw = Prov(b, follow_all={"slice::len"})
+            for bi in sorted(b.live_blocks()):
+                for st in b.stmts(bi):
+                    if st["k"] == "assign" and st["rv"]["k"] == "bin" and st["rv"]["op"].startswith("Add"):
+                        nm = b.local_name(q.local_of(st["rv"]["a"][0])) if q.local_of(st["rv"]["a"][0]) is not None else None
+                        if nm == b.local_name(wl) or q.local_of(st["rv"]["a"][0]) == wl:
+                            incs.append(pw.of_operand(st["rv"]["a"][1]))
+        # the increment is computed from the caller's buffer (its length before minus after the split), not
+        # from the two byte word that was written
+        d["count-is-bytes-consumed"] = bool(incs) and all(has_root(r, "via", "slice::len") and any(x[0] in ("upvar", "arg") and x[-1] == "buf" for x in r) for r in incs)
         ok = all(d.values())
-    rep.ob(P, "range-write" + tag, ok, "EepromRange::write writes word by word at byte_pos / 2 while byte_pos < end, pads an odd trailing byte with 0x00; %s" % d, loc=b.span)
+    rep.ob(P, "range-write" + tag, ok, "EepromRange::write writes word by word at byte_pos / 2 while byte_pos < end, pads an odd trailing byte with 0x00 and reports the number of bytes it took from the buffer (not the padded word); %s" % d, loc=b.span)
 
 
 def write_word(prog, rep, tag):
@@ -196,5 +226,17 @@ def write_word(prog, rep, tag):
         s1, s2 = sorted(sends, key=lambda c: c.bb)
         f = Prov(b, follow_all={"Command::fpwr", "Into::into"})
         d["data-then-control"] = any(r[0] == "agg" and r[2] == "SiiData" for r in f.of_operand(s1.args[0])) and any(r[0] == "agg" and r[2] == "SiiControl" for r in f.of_operand(s2.args[0]))
-    ok = all(d.get(k) for k in ("bound-20", "loops-only-below-bound", "retry-only-on-command-error", "counter-increases", "data-then-control"))
-    rep.ob(P, "bounded-retry" + tag, ok, "write_word: data then control register, wait, and re-issue only while command_error && retry_count < 20 (counter +1 per retry); %s" % d, loc=b.span)
+    # success only if the last attempt did not end in a command error: every Ok(()) lies on the edge on which
+    # command_error is false (exhausting the retries is an error, the word was not stored)
+    oks = q.aggregates(b, "Result", "Ok")
+    okc = False
+    for cd in q.conds(b):
+        if hasattr(cd, "operand") and cd.kind in ("bool", "int") and has_root(pr.of_operand(cd.operand), "field", "SiiControl", "command_error"):
+            t_edge = cd.true_target() if not cd.negated else cd.false_target()
+            f_edge = cd.false_target() if not cd.negated else cd.true_target()
+            if f_edge is not None and t_edge is not None:
+                dom_f = q.edge_dominated(b, cd.bb, f_edge)
+                okc = bool(oks) and all(x[0] in dom_f for x in oks)
+    d["ok-only-without-command-error"] = okc
+    ok = all(d.get(k) for k in ("bound-20", "loops-only-below-bound", "retry-only-on-command-error", "counter-increases", "data-then-control", "ok-only-without-command-error"))
+    rep.ob(P, "bounded-retry" + tag, ok, "write_word: data then control register, wait, and re-issue only while command_error && retry_count < 20 (counter +1 per retry); Ok(()) only when the last attempt ended without command error; %s" % d, loc=b.span)
